@@ -164,6 +164,51 @@ static std::string seg_str(std::vector<int> const &seg, int L)
   return s + "\"";
 }
 
+// ---- accumulated work of moving centres for vector-valued variables ----
+// With the variable held fixed, the work done by moving the centre is the change of the restraint energy: whatever end of the
+// step the force is taken at, the sum over steps of force times centre increment converges to it as the steps get small
+// (3-vector: 0.3% off with 256 steps).  Checked with 256 steps and a tolerance of 3% of the energy change.
+static void vector_work_part(Result &r)
+{
+  struct VW { const char *name; std::string var, c0, c1; };
+  std::string const refp = " refPositions (0, 0, 0) (1.5, 0, 0) (0.2, 1.4, 0.3) (-0.4, 0.6, 1.6)\n";
+  std::vector<VW> cases = {
+      {"3vector", "distanceVec {\n group1 { atomNumbers 1 }\n group2 { atomNumbers 2 }\n }", "(1, 0, 0)", "(0, 1, 0)"},
+      {"3vector-far-target", "distanceVec {\n group1 { atomNumbers 1 }\n group2 { atomNumbers 2 }\n }", "(1, 0.5, 0)", "(-2, 1, 3)"},
+      {"unitvector", "distanceDir {\n group1 { atomNumbers 1 }\n group2 { atomNumbers 2 }\n }", "(1, 0, 0)", "(0, 1, 0)"},
+      {"unitvector-short-move", "distanceDir {\n group1 { atomNumbers 1 }\n group2 { atomNumbers 2 }\n }", "(1, 0, 0)", "(0.9, 0.1, 0.2)"},
+      {"quaternion", "orientation {\n atoms { atomNumbers 1 2 3 4 }\n" + refp + " }", "(1, 0, 0, 0)", "(0.7071067811865476, 0, 0, 0.7071067811865476)"},
+      {"quaternion-short-move", "orientation {\n atoms { atomNumbers 1 2 3 4 }\n" + refp + " }", "(1, 0, 0, 0)", "(0.98, 0.1, 0.1, 0.1)"},
+  };
+  int const N = 256;
+  for (auto const &c : cases) {
+    vproxy *px = new vproxy(4);
+    px->x[0] = cvm::rvector(0, 0, 0); px->x[1] = cvm::rvector(2 * std::cos(0.35), 2 * std::sin(0.35), 0);
+    px->x[2] = cvm::rvector(0.2, 1.4, 0.3); px->x[3] = cvm::rvector(-0.4, 0.6, 1.6);
+    std::string conf = "colvar {\n name u\n " + c.var + "\n}\nharmonic {\n name r\n colvars u\n centers " + c.c0 + "\n targetCenters " + c.c1 +
+                       "\n forceConstant 2.0\n targetNumSteps " + std::to_string(N) + "\n outputAccumulatedWork on\n}\n";
+    if (px->config(conf) != 0) { fprintf(stderr, "HARNESS-ERROR: vector work case %s rejected: %s\n", c.name, px->errtxt.c_str()); exit(3); }
+    double e0 = 0, e1 = 0;
+    bool ok = true;
+    for (long st = 0; st <= N && ok; st++) {
+      if (px->step(st) != 0) { r.violation(std::string("C06:work:vector-valued:step-fails:") + c.name, "{\"error\":\"" + jesc(px->errtxt.substr(0, 200)) + "\"}"); ok = false; }
+      r.count("transitions");
+      if (st == 0) e0 = px->energy;
+      e1 = px->energy;
+    }
+    if (ok) {
+      double W = dynamic_cast<colvarbias_restraint_moving *>(px->bias("r"))->acc_work, dU = e1 - e0;
+      r.count("evaluations"); r.count("work_checked");
+      r.seen("nontrivial", fnv(std::string("vw") + c.name));
+      if (std::fabs(W - dU) > 0.03 * std::fabs(dU))
+        r.violation(std::string("C06:work:accumulated-work-of-a-fixed-variable-is-not-the-energy-change:") + c.name,
+                    std::string("{\"variable_type\":\"") + c.name + "\",\"centers\":\"" + c.c0 + "\",\"targetCenters\":\"" + c.c1 + "\",\"targetNumSteps\":" + std::to_string(N) +
+                        ",\"accumulatedWork\":" + num(W) + ",\"energy_change\":" + num(dU) + "}");
+    }
+    delete px;
+  }
+}
+
 int main(int argc, char **argv)
 {
   Args args(argc, argv);
@@ -223,6 +268,7 @@ int main(int argc, char **argv)
 
   Result total;
   bool ok = run_sharded(args.jobs, [&](int shard, int nsh, Result &r) {
+    if (shard == 0) vector_work_part(r);
     for (size_t mi = 0; mi < menu.size(); mi++) {
       Sched const &sc = menu[mi];
       for (int traj = 0; traj < 2; traj++) {
